@@ -12,6 +12,11 @@ open PV PV.RunLoop
 theorem generated_tables_ok : KexTables Generated.C12.tables :=
   ⟨by decide, by decide, by decide, by decide, by decide⟩
 
+/-- **Order of the checks in `Transport.run`** (AST of the loop body, read on every run): the expected-packet test
+comes before any handler-table dispatch and before the server's pre-auth gate `_ensure_authed`, as in the model's
+`body` / `afterExpected` — nothing gets to answer a message that is not the armed one. -/
+theorem expected_check_precedes_dispatch : Generated.C12.expectedCheckBeforeDispatch = true := by decide
+
 /-- every paramiko kex engine, in both roles, arms a non-empty set of kex-range types at each step -/
 theorem engines_wf (k : KexKind) (server : Bool) : (engineOf k server).WF := by
   cases k <;> cases server <;> simp [Engine.WF, EStep.WF, engineOf, Engine.script]
